@@ -703,12 +703,64 @@ class Interp:
             for s in cur:
                 for v, s2 in self._ev(item.context_expr, s, out):
                     ev = ("enter", v)
+                    if v[0] == "obj":
+                        try:
+                            en_name = "__aenter__" if isinstance(node, ast.AsyncWith) else "__enter__"
+                            if self.p.find_method(self.p.cls(v[1]), en_name) is not None:
+                                entered = self.call(("attr", v, en_name), (), (), node, s2, out, None)
+                                for ev2, s3 in entered:
+                                    if item.optional_vars is not None:
+                                        nxt.extend(self.assign(item.optional_vars, ev2, s3, out, node))
+                                    else:
+                                        nxt.append(s3)
+                                continue
+                        except Exception:
+                            pass
                     if item.optional_vars is not None:
                         nxt.extend(self.assign(item.optional_vars, ev, s2, out, node))
                     else:
                         nxt.append(s2)
             cur = nxt
         o = self.exec_block(node.body, cur)
+        # a context manager that is an object of a private class of the repository: its __exit__ / __aexit__ runs on every way
+        # out of the block (like the `finally` it usually replaces); its return value decides whether an exception is swallowed
+        managers = []
+        if len(node.items) == 1:
+            for s in cur[:1]:
+                pass
+            try:
+                cm_vals = [v for v, _s in self._ev(node.items[0].context_expr, st, Outcome())]
+            except Undecided:
+                cm_vals = []
+            if len(cm_vals) == 1 and cm_vals[0][0] == "obj":
+                try:
+                    ci_ = self.p.cls(cm_vals[0][1])
+                    ex_name = "__aexit__" if isinstance(node, ast.AsyncWith) else "__exit__"
+                    if self.p.find_method(ci_, ex_name) is not None:
+                        managers.append((cm_vals[0], ex_name))
+                except Exception:
+                    pass
+        if managers:
+            cm, ex_name = managers[0]
+
+            def leave(s: State, exc_args) -> List[Tuple[Value, State]]:
+                return self.call(("attr", cm, ex_name), exc_args, (), node, s, out, None)
+            none3 = (NONE, NONE, NONE)
+            for s in o.next:
+                out.next.extend(s2 for _v, s2 in leave(s, none3))
+            for v, s in o.ret:
+                out.ret.extend((v, s2) for _v, s2 in leave(s, none3))
+            for s in o.brk:
+                out.brk.extend(s2 for _v, s2 in leave(s, none3))
+            for s in o.cont:
+                out.cont.extend(s2 for _v, s2 in leave(s, none3))
+            for exc, s in o.exc:
+                for v2, s2 in leave(s, (("exc", exc), ("exc", exc), ("top", "traceback"))):
+                    if self.truth(v2, s2) is True:
+                        out.next.append(s2)  # swallowed
+                    else:
+                        out.exc.append((exc, s2))
+            return out
         # context-manager exit behaves like a finally that does not swallow
         out.next.extend(o.next)
         out.absorb_abrupt(o)
